@@ -31,6 +31,18 @@ pub struct AcoCase {
 }
 
 fn instance(cities: usize, which: u8) -> TspP {
+    if which == 2 {
+        // two tight clusters {0,1} and {2,3,..} separated by an astronomically large distance
+        let mut dist = vec![vec![0.0; cities]; cities];
+        for i in 0..cities {
+            for j in 0..cities {
+                if i != j {
+                    dist[i][j] = if (i < 2) == (j < 2) { 1.0 + (i + j) as f64 * 0.25 } else { 1e200 };
+                }
+            }
+        }
+        return TspP { n: cities, dist, instr: Instr::new() };
+    }
     let gaps: Vec<f64> = match (cities, which) {
         (3, 0) => vec![1.0, 2.0],
         (3, _) => vec![1e-3, 1e3],
@@ -230,6 +242,11 @@ fn spec_for(c: &AcoCase, iters: u32) -> Spec<TspP> {
 pub fn cases(thorough: bool) -> Vec<AcoCase> {
     let mut v = vec![];
     let cities: Vec<usize> = if thorough { vec![3, 4, 5] } else { vec![3, 4] };
+    // two tight clusters separated by an astronomically large distance
+    for (ants, alpha, beta) in [(2usize, 1.0, 2.0), (1, 2.0, 5.0)] {
+        v.push(AcoCase { cities: 4, instance: 2, ants, alpha, beta, evap: 0.1, bounds: None, default_pher: 1.0, via_template: true });
+        v.push(AcoCase { cities: 4, instance: 2, ants, alpha, beta, evap: 0.1, bounds: Some((2.0, 0.5)), default_pher: 1.0, via_template: false });
+    }
     for &n in &cities {
         for inst in 0..2u8 {
             for (ants, alpha, beta, evap) in [(2usize, 1.0, 1.0, 0.1), (1, 0.0, 2.0, 0.5), (3, 2.0, 0.0, 1.0), (0, 1.0, 1.0, 0.0), (2, 2.0, 2.0, 0.5)] {
@@ -238,7 +255,10 @@ pub fn cases(thorough: bool) -> Vec<AcoCase> {
                 }
                 v.push(AcoCase { cities: n, instance: inst, ants, alpha, beta, evap, bounds: None, default_pher: 1.0, via_template: ants != 1 });
                 if ants >= 1 {
-                    for (mx, mn, dp) in [(2.0, 0.5, 1.0), (1.0, 0.1, 1.0)] {
+                    for (mx, mn, dp) in [(2.0, 0.5, 1.0), (1.0, 0.1, 1.0), (1.0, 0.01, 5.0), (3.0, 2.0, 0.5)] {
+                        if dp != 1.0 && (inst == 1 || ants == 3) {
+                            continue;
+                        }
                         v.push(AcoCase { cities: n, instance: inst, ants, alpha, beta, evap, bounds: Some((mx, mn)), default_pher: dp, via_template: ants != 2 });
                     }
                 }
